@@ -11,6 +11,7 @@ import NcVerif.Driver.OpsD
 import NcVerif.Driver.IsoD
 import NcVerif.Driver.ConnectD
 import NcVerif.Driver.XmlD
+import NcVerif.Driver.JunosD
 open NcVerif.Driver
 
 structure DState where
@@ -26,6 +27,7 @@ def stepLine (st : DState) (line : String) : DState × String :=
   | "iso" :: rest => (st, isoCmd rest)
   | "cn" :: rest => (st, connectCmd rest)
   | "xm" :: rest => (st, xmlCmd rest)
+  | "js" :: rest => (st, junosCmd rest)
   | "xt" :: rest => (st, xmlTextCmd rest)
   | "ss" :: rest => let (s', out) := sessionCmd st.sess rest; ({ st with sess := s' }, out)
   | _ => (st, "bad-model")
